@@ -39,6 +39,7 @@ BASE = {
     'kpc': _mk('kpc', Sc(PC_M) * 1000, m=1),
     's': _mk('s', 1, s=1),
     'Hz': _mk('Hz', 1, s=-1),
+    'GHz': _mk('GHz', 10 ** 9, s=-1),
     'g': _mk('g', F(1, 1000), kg=1),
     'kg': _mk('kg', 1, kg=1),
     'erg': _mk('erg', F(1, 10 ** 7), kg=1, m=2, s=-2),
